@@ -5,6 +5,10 @@ ops:
   check <ctr>      -> 0|1
   update <ctr>     -> `<0|1> <current>`
   dump             -> `<current> <bitmap words, 16 hex digits each, word 0 first>`
+  run <from> <n>   -> `<accepted> <current>`   (Update(from), Update(from+1), …, n calls)
+  scan             -> `<lo> <hi> <run-length encoding of Check(c) for c = lo … hi>` where
+                      lo = current-length-1 (saturating), hi = current+2 (saturating): the whole window
+                      plus two counters on either side; runs are `<0|1>x<count>` joined by `,`
 The oracle is the unbounded-naturals window of `Spec.Window`, driven by the ops.
 -/
 import Nebula.Driver.Common
@@ -44,6 +48,29 @@ def branchTag (pre : String) (L : Nat) (w : Window.W) (i : Nat) : String :=
     else if i + L == h then "edge-stale"
     else "stale"
   s!"{pre}:{k}{phase}"
+
+/-- run-length encoding of a Boolean array: `1x5,0x3,…` -/
+def rle (a : Array Bool) : String :=
+  let (runs, cur, cnt) := a.foldl (fun (acc : List String × Bool × Nat) b =>
+    let (runs, cur, cnt) := acc
+    if cnt == 0 then (runs, b, 1)
+    else if b == cur then (runs, cur, cnt + 1)
+    else (s!"{boolStr cur}x{cnt}" :: runs, b, 1)) ([], false, 0)
+  let runs := if cnt == 0 then runs else s!"{boolStr cur}x{cnt}" :: runs
+  ",".intercalate runs.reverse
+
+def unrle (s : String) : Option (Array Bool) :=
+  (s.splitOn ",").foldl (fun acc run =>
+    match acc, run.splitOn "x" with
+    | some a, [b, n] =>
+      match n.toNat? with
+      | some n => if b == "1" then some (a ++ Array.replicate n true)
+                  else if b == "0" then some (a ++ Array.replicate n false) else none
+      | none => none
+    | _, _ => none) (some #[])
+
+def scanLo (cur L : Nat) : Nat := cur - (L + 1)
+def scanHi (cur : Nat) : Nat := min (2 ^ 64 - 1) (cur + 2)
 
 def step (s : S) (args : List String) (impl : String) : S × Out :=
   match args with
@@ -91,6 +118,53 @@ def step (s : S) (args : List String) (impl : String) : S × Out :=
   | ["dump"] =>
     match s.b with
     | some b => (s, { model := dumpStr b, tag := "dump" })
+    | none => (s, badOp)
+  | ["run", from_, n] =>
+    match natArg from_, natArg n, s.b with
+    | some f, some n, some b =>
+      if f + n > 2 ^ 64 then (s, badOp) else
+      let (b', cnt) := (List.range n).foldl (fun (acc : Bits × Nat) k =>
+        let (b', ok) := update acc.1 (BitVec.ofNat 64 (f + k))
+        (b', if ok then acc.2 + 1 else acc.2)) (b, 0)
+      let (w', want) := (List.range n).foldl (fun (acc : Window.W × Nat) k =>
+        let (w', ok) := Window.step s.L acc.1 (f + k)
+        (w', if ok then acc.2 + 1 else acc.2)) (s.w, 0)
+      let wantStr := s!"{want} {Window.hi w'}"
+      ({ s with b := some b', w := w' },
+       { model := s!"{cnt} {b'.current.toNat}",
+         verdict := if impl == wantStr then "ok" else s!"bad run-accept-count want={wantStr}",
+         tag := if Window.hi s.w < s.L && s.L ≤ Window.hi w' then "run:leaves-warmup"
+                else if s.L ≤ Window.hi s.w then "run:steady" else "run:warm" })
+    | _, _, _ => (s, badOp)
+  | ["scan"] =>
+    match s.b with
+    | some b =>
+      let cur := b.current.toNat
+      let lo := scanLo cur s.L
+      let n := scanHi cur - lo + 1
+      let m := (Array.range n).map (fun k => check b (BitVec.ofNat 64 (lo + k)))
+      -- the oracle: the specification window over its own range
+      let h := Window.hi s.w
+      let slo := scanLo h s.L
+      let sn := scanHi h - slo + 1
+      let want := Window.scan s.L s.w slo sn
+      let verdict :=
+        match impl.splitOn " " with
+        | [ilo, ihi, runs] =>
+          if ilo != toString slo || ihi != toString (scanHi h) then
+            s!"bad current-not-highest want={h} scan-range={ilo}..{ihi}"
+          else if runs == rle want then "ok"
+          else
+            match unrle runs with
+            | none => "bad scan-unparsable"
+            | some got =>
+              if got.size != sn then "bad scan-unparsable length" else
+              match (List.range sn).find? (fun k => got[k]! != want[k]!) with
+              | none => "ok"
+              | some k => wrongClass "check-" s.L s.w (slo + k) got[k]!
+        | _ => "bad scan-unparsable"
+      (s, { model := s!"{lo} {scanHi cur} {rle m}", verdict := verdict,
+            tag := if h + s.L ≥ 2 ^ 64 then "scan:wrap" else if h < s.L then "scan:warm" else "scan" })
     | none => (s, badOp)
   | _ => (s, badOp)
 
